@@ -151,7 +151,7 @@ PROPS = {
         "rule": WORLD_RULE, "assumptions": WORLD_ASSUMPTIONS,
     },
     "C07": {
-        "lean_modules": ["Perp.Props.EngineGuards"],
+        "lean_modules": ["Perp.Props.LiqTwin", "Perp.Props.EngineGuards"],
         "runs": lambda tier, seed: world_runs(tier, seed, q=1200, qn=8),
         "rule": WORLD_RULE, "assumptions": WORLD_ASSUMPTIONS,
     },
@@ -171,7 +171,7 @@ PROPS = {
         "rule": WORLD_RULE, "assumptions": WORLD_ASSUMPTIONS,
     },
     "C13": {
-        "lean_modules": ["Perp.Props.EngineMoney"],
+        "lean_modules": ["Perp.Props.LiqTwin"],
         "runs": lambda tier, seed: twin_runs(tier, seed),
         "rule": WORLD_RULE + " || twin mode: two deployments identical except the collateral (cw20 vs native, 6 decimals) driven in lock-step; each native call attaches exactly what the cw20 run pulled from the caller; after every operation positions, vAMM state, engine state and per-account balance deltas are compared",
         "assumptions": WORLD_ASSUMPTIONS,
